@@ -15,3 +15,7 @@ Definition run_stopped (orig fmt : text) (n k : N) (started : bool) :=
 Definition enc_op (o : op) : N * N * N :=
   match o with Write p _ => (0, p, 0) | Rename a b => (1, a, b) end.
 Definition run_ops (orig fmt : text) := map enc_op (backup_ops tmp_of bk_of 1 orig fmt).
+
+(* the sibling names for a file given as stem and extension (None = no extension): (FILE.tmp-name, FILE.bk-name) as written *)
+Definition run_names (stem : text) (ext : option text) : text * text :=
+  (whole (tmp_name (stem, ext)), whole (bk_name (stem, ext))).
